@@ -332,6 +332,15 @@ static void fam_commands_types(void)
 		if (n < 0) continue;
 		deliver(u & 1 ? &A_ADDR : &X6_ADDR, pkt, n, "command '%c' in a type %d query, userid byte 0x%02x, %d argument bytes", *c, T[t], UID[u], LL[l]); tick();
 	}
+	/* well-formed base32 commands of the logged-in session A (userid 1) with every payload length 0..60 and 200 */
+	for (int len = 0; len <= 61; len++) for (const char *c = "plnvPLNV"; *c; c++) for (int uid = 0; uid < 3; uid++) {
+		unsigned char payload[256]; char s_[500]; int L = len == 61 ? 140 : len;
+		payload[0] = uid; for (int i = 1; i < L; i++) payload[i] = (unsigned char)(i * 37 + len);
+		s_[0] = *c; int k = tm_b32(payload, L, s_ + 1);
+		int n = tm_query(pkt, 900, 0x6150 + len, uid & 1 ? 10 : 16, s_, 1 + k, DOM, 0);
+		if (n < 0) continue;
+		deliver(&A_ADDR, pkt, n, "command '%c' with a well-formed base32 payload of %d bytes for userid %d", *c, L, uid); tick();
+	}
 	/* well-formed commands with hostile field values */
 	static const int SIZES[] = { 0, 1, 2, 3, 100, 2046, 2047, 2048, 4095, 4096, 65535 };
 	for (unsigned s_ = 0; s_ < sizeof SIZES / sizeof SIZES[0]; s_++) for (int u = 0; u < 17; u++) {
